@@ -340,6 +340,9 @@ func (b *BaseType) UnmarshalJSON(data []byte) error {
 	if err != nil {
 		return err
 	}
+	if !isAtomicType(bt.Type) {
+		return fmt.Errorf("non atomic type %q in <base-type>", bt.Type)
+	}
 
 	if bt.Enum != nil {
 		// 'enum' is a list or a single element representing a list of exactly one element
